@@ -100,6 +100,17 @@ theorem convert_rows (w w' : World) (op : Op) (hop : op.isConversion = true)
     | _ => simp [Op.isConversion] at hop
   exact this
 
+/-- `reduce_phases` ("collapsing to the phases actually present") never drops a non-empty phase: the phase
+set it chooses contains every non-empty phase up to case, so `convert_rows` applies to it unconditionally. -/
+theorem reduce_keeps_every_phase (w w' : World) (h : w.step .reduce = .ok w') :
+    Covers w w'.s.phases ∧ RowsKept w w' :=
+  ⟨reduce_covers h, reduce_rowsKept h (reduce_covers h)⟩
+
+/-- the same for `as_stream` whenever it does not refuse (it refuses when two phase groups hold material) -/
+theorem asStream_keeps_every_phase (w w' : World) (h : w.step .asStream = .ok w') :
+    Covers w w'.s.phases ∧ RowsKept w w' :=
+  ⟨asStream_covers h, asStream_rowsKept h (asStream_covers h)⟩
+
 /-- a phase that keeps its exact label keeps exactly its material when no other-case phase folds into it -/
 theorem dest_exact (t : List Ph) (p : Ph) (hp : p ∈ t) : dest t p = some p := dest_of_mem hp
 
